@@ -227,6 +227,8 @@ pub struct Violation {
 /// Counters used to classify cases (non-triviality rules, evidence histograms)
 #[derive(Clone, Debug, Default)]
 pub struct Stats {
+    /// set_backpressure_depth called on a pipe that already exists
+    pub depth_changes: u32,
     /// polls performed by inline tasks from inside a waker call
     pub inline_polls: u32,
     /// an input stream woke its own waker from inside poll_next
